@@ -189,8 +189,9 @@ def zero_part(rng, st, ct):
     return c0
 
 
-def emit_put(p, rng, v, mt, coll, parts, vs, tagset, use_imap=True):
-    """one logical write split over the ranks.  parts[r] = (st,ct,sd) or None"""
+def emit_put(p, rng, v, mt, coll, parts, cellvals, tagset, use_imap=True):
+    """one logical write split over the ranks.  parts[r] = (st,ct,sd) or None.  `cellvals` maps every cell
+    of the logical region to its value, so the data written does not depend on the decomposition."""
     texts = {}
     family = None
     if coll:
@@ -220,8 +221,8 @@ def emit_put(p, rng, v, mt, coll, parts, vs, tagset, use_imap=True):
         st, ct, sd = part
         form = choose_form(rng, st, ct, sd, family)
         n = nelems(ct)
-        vals = vs.take(n)
-        lay = rng.choice(['c', 'c', 't', 'v2', 'v3'])
+        vals = [cellvals[c] for c in region_cells(st, ct, sd)]
+        lay = rng.choice(['c', 'c', 't', 'v2', 'v3', 'r2', 'r3'])
         imap = None
         if form == 'varm':
             if use_imap and rng.chance(1, 2) and len(ct) >= 2:
@@ -264,6 +265,8 @@ def emit_put(p, rng, v, mt, coll, parts, vs, tagset, use_imap=True):
         tagset.add(form)
         if lay.startswith('v'):
             tagset.add('buftype-gaps')
+        if lay.startswith('r'):
+            tagset.add('buftype-resized')
         if any(k != 1 for k in sd):
             tagset.add('strided')
     texts = {r: t for r, t in texts.items() if t}
@@ -297,7 +300,7 @@ def emit_reads(p, rng, v, numrecs, coll, nprocs, tagset, written=None):
         # unwritten cells hold fill values or unspecified bytes: read them in the native type only
         # (conversion of those is C09's business, not this stream's)
         mt = rng.choice(MT_FOR[v.xt]) if allw else NATIVE[v.xt]
-        lay = rng.choice(['c', 't', 'v2'])
+        lay = rng.choice(['c', 't', 'v2', 'r2'])
         if family != 'varn' and rng.chance(1, 6):
             mt = NATIVE[v.xt]
             texts[r] = rw_text('get', 'var', coll, v, mt, rng.choice(['c', 't']), None, None, None, None, None)
@@ -338,9 +341,13 @@ def emit_reads(p, rng, v, numrecs, coll, nprocs, tagset, written=None):
         p.all('barrier')
 
 
-def gen_rw_program(rng, path, nprocs, step0=0, hints='-', fill=None, reopen=True, fmt=None):
+def gen_rw_program(rng, path, nprocs, step0=0, hints='-', fill=None, reopen=True, fmt=None, rd=None, enddef='enddef', dump=True):
     """C01-style program: define, several write phases (collective and independent, every form, split over
-    the ranks), sync, read phases (every form), close/reopen, read again."""
+    the ranks), sync, read phases (every form), close/reopen, read again.
+    `rng` drives the LOGICAL program (schema, regions, values, modes); `rd` (default: rng) drives the
+    decomposition over the ranks and the per-rank API form / buffer layout / read choices, so that the same
+    logical program can be replayed under another process count or decomposition (C10)."""
+    rd = rd or rng
     fmt = fmt or rng.choice([1, 2, 5])
     p = Prog(path, nprocs, step0)
     p.all('create %s %d clobber %s' % (path, fmt, hints))
@@ -349,10 +356,10 @@ def gen_rw_program(rng, path, nprocs, step0=0, hints='-', fill=None, reopen=True
     emit_define(p, dims, hasrec, vars_, rng, fill)
     if rng.chance(1, 3):
         p.all('put_att - title char 5 68656c6c6f')
-    p.all('enddef')
+    p.all(enddef)
     vs = ValueSource(rng)
     numrecs = 0
-    written = {}     # var name -> set of index tuples written (to keep writes disjoint per phase)
+    written = {}     # var name -> set of index tuples written
     nphase = rng.range(2, 4)
     for ph in range(nphase):
         coll = rng.chance(1, 2)
@@ -366,13 +373,14 @@ def gen_rw_program(rng, path, nprocs, step0=0, hints='-', fill=None, reopen=True
             else:
                 shape = shape_of(v, numrecs)
             st, ct, sd = rand_region(rng, shape)
-            parts = split_region(rng, st, ct, sd, nprocs) if v.dims else [((st, ct, sd) if r == 0 else None) for r in range(nprocs)]
-            if not v.dims and coll:
-                # scalar written collectively: rank 0 writes, the others issue nothing (independent semantics needed)
-                continue
             mt = rng.choice(MT_FOR[v.xt])
-            emit_put(p, rng, v, mt, coll, parts, vs, p.tags)
-            written.setdefault(v.name, set()).update(region_cells(st, ct, sd))
+            cells = region_cells(st, ct, sd)
+            cellvals = dict(zip(cells, vs.take(len(cells))))
+            if not v.dims and coll:
+                continue
+            parts = split_region(rd, st, ct, sd, nprocs) if v.dims else [((st, ct, sd) if r == 0 else None) for r in range(nprocs)]
+            emit_put(p, rd, v, mt, coll, parts, cellvals, p.tags)
+            written.setdefault(v.name, set()).update(cells)
             if v.isrec:
                 numrecs = max(numrecs, st[0] + (ct[0] - 1) * sd[0] + 1)
         if not coll:
@@ -381,30 +389,41 @@ def gen_rw_program(rng, path, nprocs, step0=0, hints='-', fill=None, reopen=True
         if hasrec:
             p.all('inq_numrecs')
         # read phase
-        rcoll = rng.chance(1, 2)
+        rcoll = rd.chance(1, 2)
         if not rcoll:
             p.all('begin_indep')
-        for _ in range(rng.range(1, 3)):
-            v = rng.choice(vars_)
-            emit_reads(p, rng, v, numrecs, rcoll, nprocs, p.tags, written)
+        for _ in range(rd.range(1, 3)):
+            v = rd.choice(vars_)
+            emit_reads(p, rd, v, numrecs, rcoll, nprocs, p.tags, written)
         if not rcoll:
             p.all('end_indep')
     p.all('inq')
     for v in vars_:
         p.all('inq_var %s' % v.name)
     p.all('close')
+    p.dump_from = p.step + 1
     if reopen:
         p.all('open %s r -' % path)
         if hasrec:
             p.all('inq_numrecs')
         for v in vars_:
             for _ in range(2):
-                emit_reads(p, rng, v, numrecs, True, nprocs, p.tags, written)
-            if all(n > 0 for n in shape_of(v, numrecs)):
-                p.all('get var c %s %s c - - - -' % (v.name, NATIVE[v.xt]))
+                emit_reads(p, rd, v, numrecs, True, nprocs, p.tags, written)
+        # logical dump (identical for every decomposition / configuration of the same logical program)
+        p.dump_steps = []
+        if dump:
+            p.dump_steps.append(p.all('inq'))
+            if hasrec:
+                p.dump_steps.append(p.all('inq_numrecs'))
+            p.dump_steps.append(p.all('get_att - title text'))
+            for v in vars_:
+                p.dump_steps.append(p.all('inq_var %s' % v.name))
+                if all(n > 0 for n in shape_of(v, numrecs)):
+                    p.dump_steps.append(p.all('get var c %s %s c - - - -' % (v.name, NATIVE[v.xt])))
         p.all('close')
     p.tags.add('fmt%d' % fmt)
     p.tags.add('fill-' + fill)
     if hasrec:
         p.tags.add('recvars')
+    p.vars = vars_
     return p
